@@ -485,6 +485,10 @@ package diam
 //@   ensures [C09] unknown_command_catch_all: old(!mknown(m) && has(mux.idxMap, allidx())) ==> called(old(mux.idxMap[allidx()].h), c, m, old(handlercalls()))
 //@   ensures [C09] nothing_registered: old((!mknown(m) || (!has(mux.idxMap, midx(m)) && !has(mux.m, mname(m)))) && !has(mux.idxMap, allidx())) ==>
 //@           handlercalls() == old(handlercalls()) && reports() == old(reports()) + 1
+//@   # C15 (a handler panic stays on its connection): when the handler panics, the dispatcher's read lock on the shared mux
+//@   # is released on the way out (deferred unlock), so registrations and the dispatch of other connections are not blocked
+//@   onpanic [C08 C15] no_lock_on_the_shared_mux_is_left_held: rlocked(&mux.mu) == old(rlocked(&mux.mu)) && (wlocked(&mux.mu) <==> old(wlocked(&mux.mu)))
+//@   ensures [C08 C15] lock_released: rlocked(&mux.mu) == old(rlocked(&mux.mu)) && (wlocked(&mux.mu) <==> old(wlocked(&mux.mu)))
 //@ end
 //@
 //@ func (*ServeMux).HandleIdx(mux, cmd, handler)
